@@ -163,6 +163,18 @@ class MediaQuery(cssutils.util._NewBase):  # cssutils.util.Base):
 
         # parse
         ok, seq, store, unused = ProdParser().parse(mediaText, 'MediaQuery', prods)
+        if ok:
+            # a query ends with its media type or with a complete expression,
+            # not with "and" or inside "( ... )"
+            strs = [x.value for x in seq if isinstance(x.value, str)]
+            if strs and not (
+                strs[-1] == ')'
+                or ('media_type' in store and strs[-1] == store['media_type'].value)
+            ):
+                ok = False
+                self._log.error(
+                    'MediaQuery: Incomplete media query: %s' % self._valuestr(mediaText)
+                )
         self._wellformed = ok
         if ok:
             try:
